@@ -14,6 +14,8 @@ EXPLANATION = (
     "max(ceil((threshold - epsilon) * n), 0) and the filter is f >= bound over `known` only. R09-epsilon-width: in both "
     "constructors 1/width <= epsilon (width = ceil(1/epsilon); epsilon = 1/width)."
 )
+from .common import NEW_WRITERS_NOTE as _NWN
+EXPLANATION = EXPLANATION + _NWN % "09"
 NOT_DECIDED = "the harmonic-number bound on table size (a counting argument over all streams)"
 ASSUMPTIONS = ["HashMap::entry/Vacant::insert/Occupied::get_mut act on the given key", "drain().filter(p).collect() keeps exactly the entries satisfying p"]
 
@@ -40,6 +42,8 @@ def is_ceil_div(t, n, w, fn=None, prog=None, tb=None):
 
 
 def run(ctx):
+    from .common import check_new_writers
+    check_new_writers(ctx, "R09-new-writers", ['topk::lossycounter::LossyCounter'])
     prog = ctx.prog
     add = ctx.anchor(LC + "::add")
     qry = ctx.anchor(LC + "::query")
